@@ -674,6 +674,37 @@ pub fn replay_case(prop: &Property, rf: &ReplayFile, thorough: bool) -> (Verdict
             return (v, desc);
         }
     }
+    // The properties that quantify over thread schedules (C15, C19): a case that misbehaved while 16 workers shared the
+    // machine is re-executed the same way - 16 threads run it side by side, so that its threads are preempted in the
+    // middle of what they do, as they were when it was found. (On an idle machine a window of a few instructions
+    // between two lock acquisitions is practically never hit.)
+    if prop.id == "C15" || prop.id == "C19" {
+        let run = part.run;
+        let reps = prop.replay_reps.max(1);
+        let found: std::sync::Mutex<Option<Verdict>> = std::sync::Mutex::new(None);
+        std::thread::scope(|sc| {
+            for _ in 0..16 {
+                sc.spawn(|| {
+                    for _ in 0..reps {
+                        if found.lock().unwrap().is_some() {
+                            return;
+                        }
+                        let (v, _) = exec_case(run, &rf.data, rf.exh, thorough, false, rf.no_exclusions);
+                        if v.is_fail() {
+                            let mut g = found.lock().unwrap();
+                            if g.is_none() {
+                                *g = Some(v);
+                            }
+                            return;
+                        }
+                    }
+                });
+            }
+        });
+        if let Some(v) = found.into_inner().unwrap() {
+            return (v, desc);
+        }
+    }
     (Verdict::Pass, desc)
 }
 
